@@ -203,6 +203,25 @@ func (v *Verifier) evalCall(fr *Frame, st *State, x *ast.CallExpr) Val {
 				}
 			}
 			panic(unsupportedf(x.Pos(), "allocated(...): argument is not a slice or heap pointer"))
+		case "samearray": // samearray(s, t): the two slices share their backing array
+			a := v.evalSpec(fr, st, x.Args[0]).(SliceVal)
+			b := v.evalSpec(fr, st, x.Args[1]).(SliceVal)
+			return Scalar{c.Eq(a.Ref, b.Ref), types.Typ[types.Bool]}
+		case "released": // released(x): the array of slice x / the object x points to has been handed to a sync.Pool
+			v.needIntIdx(x.Pos(), "released")
+			var ref *Term
+			switch o := v.evalSpec(fr, st, x.Args[0]).(type) {
+			case SliceVal:
+				ref = o.Ref
+			case PtrVal:
+				if o.Loc == nil {
+					ref = o.Ref
+				}
+			}
+			if ref == nil {
+				panic(unsupportedf(x.Pos(), "released(...): argument is not a slice or heap pointer"))
+			}
+			return Scalar{c.Select(v.ghostHeap(st, gReleased), ref), types.Typ[types.Bool]}
 		case "separate": // separate(s, t): the two slices live in different allocations
 			a := v.evalSpec(fr, st, x.Args[0]).(SliceVal)
 			b := v.evalSpec(fr, st, x.Args[1]).(SliceVal)
@@ -1013,6 +1032,7 @@ func (v *Verifier) execInline(fr *Frame, st *State, fi *FuncInfo, recv Val, args
 	for _, o := range outs {
 		switch o.ctl {
 		case CtlReturn:
+			v.runDefers(cf, o)
 			rets = append(rets, o)
 		case CtlNormal:
 			o.results = nil
@@ -1023,6 +1043,7 @@ func (v *Verifier) execInline(fr *Frame, st *State, fi *FuncInfo, recv Val, args
 				}
 			}
 			o.ctl = CtlReturn
+			v.runDefers(cf, o)
 			rets = append(rets, o)
 		case CtlDead:
 		default:
@@ -1247,6 +1268,8 @@ func (v *Verifier) resolveModTarget(cf *Frame, st *State, m ast.Expr, pos token.
 				keys = []string{gKsPos}
 			case "iolog":
 				keys = []string{gChanLen, gChanData, gChanMsgs}
+			case "released":
+				keys = []string{gReleased}
 			case "allobjects":
 				// allobjects(T): the fields of every heap object of struct type T may change
 				return []ModTarget{{ObjSh: v.eng.shapeOf(v.resolveType(cf, ce.Args[0])), Ref: nil, Any: true}}
@@ -1265,6 +1288,8 @@ func (v *Verifier) resolveModTarget(cf *Frame, st *State, m ast.Expr, pos token.
 					ref = o.ID
 				case PtrVal:
 					ref = v.ptrIdentity(o, pos)
+				case SliceVal:
+					ref = o.Ref
 				}
 				if ref == nil {
 					panic(unsupportedf(pos, "modifies %s(...): argument has no identity", id.Name))
